@@ -7,14 +7,18 @@ ID = "C07"
 AREA = "c07"
 LEAN_PROPS = "Litep2pVerif.Props.C07"
 THEOREMS = ["exit_reports_closed_once", "tcploop_exit_reports_closed_once", "protocols_before_manager", "live_protocols_all_told",
-            "app_closed_iff_last", "established_survives_dead_protocol", "redial_after_close"]
+            "app_closed_iff_last", "established_survives_dead_protocol", "loop_usable_after_protocol_exit",
+            "redial_after_close"]
 MANIFEST = {
     "text": "Lean 4 theorems about an operational model of the TCP connection event loop (every exit incl. the `?` exits), of "
             "ProtocolSet::report_connection_{established,closed} over bounded FIFO channels with suspended sends, of the "
             "manager's PeerState close rule and of accept: exactly one close report per live protocol and the manager on "
             "every terminating run and every interleaving with the environment (invariant proof), protocols before the "
             "manager, a dead receiver stops nobody from being told, ConnectionClosed iff last connection gone and after "
-            "established, a dead protocol never fails a new connection, dialable afterwards. Tied to the code by (S1) "
+            "established, a dead protocol never fails a new connection and every live protocol is told whenever "
+            "report_connection_established returns, suspended on full channels or not (invariant EstInv, the counterpart of the "
+            "close path's), after a protocol shut down the loop keeps running and a substream negotiated for a live protocol is "
+            "delivered (theorem over the permit-aware loop), dialable afterwards. Tied to the code by (S1) "
             "exhaustive small-scope differential runs of the real ProtocolSet with harness-owned receivers and (S2) two real "
             "Litep2p nodes on loopback whose event sequences the models must predict, and (tcploop area) the REAL "
             "TcpConnection::start loop driven over loopback TCP+noise+yamux with adapter-owned event sources (remote substreams "
